@@ -411,6 +411,9 @@ func partitionOf(wr *workerResult, table, name int) []map[string]any {
 			if isAdd(r.Kind) {
 				m["offers_definition"] = r.In
 			}
+			if r.Kind == opRegisterGlobal {
+				m["offers_cell"] = r.In
+			}
 			if r.Call != 0 {
 				m["call"], m["return"] = r.Call, r.Ret
 			}
